@@ -54,7 +54,7 @@ CHECKS = {
               "the deposits a transaction publishes must be exactly its executed locks / bridge transfers (whose credit to the "
               "bridge account is checked by the C01 movement reference), a withdrawal event id already recorded for the bridge is "
               "never honoured again by unlock or bridge transfer, and every honoured id is recorded."),
-        note=TL_NOTE + " IBC-carried deposits/withdrawals are covered under C18.",
+        note=TL_NOTE + " Stage ibc adds bridge Ics20Withdrawal / unlock event-id reuse on a chain with an open IBC channel.",
         design_ref="2 C04",
     ),
     "C13": dict(
@@ -106,6 +106,20 @@ CHECKS = {
         note="CometBFT's own size check and proposal signature are outside the harness; proposals at one height after a fixed prefix.",
         design_ref="2 C06",
     ),
+    "C07": dict(
+        category="exploration",
+        technique="bounded-exhaustive enumeration of block shapes through the real block pipeline and gRPC server, reference comparison and single-element tampering",
+        text=("Every block shape over 3 rollups (payload list from {none, [0x00], [a], [a,a], [a,b]} per rollup x deposits {none, 1, "
+              "2 to two bridges, 2 to one bridge} x {one bundle, one transaction per item}; quick: every third of the grid, thorough: "
+              "all 1000) is produced by the real CheckTx/PrepareProposal/FinalizeBlock/Commit and read back through the real "
+              "SequencerServer for the full block and each of the 16 rollup-id subsets, decoded with the client-side checked types "
+              "and split for Celestia; oracle: data == payloads in block order then deposits (reference from the included "
+              "transactions), ids sorted = rollups with data, header root == independently recomputed root, proofs verify; every "
+              "single-element tampering of the full, filtered and Celestia forms must fail verification. The conductor side of the "
+              "hand-off (decode + audit + reconstruct) is exercised under C09."),
+        note="astria-merkle (C08) is used for recomputation; the relayer's blob packing is covered under C12 when built.",
+        design_ref="2 C07",
+    ),
     "C08": dict(
         category="exploration",
         technique="bounded-exhaustive input enumeration on the real code against an independent RFC 6962 reference",
@@ -156,6 +170,20 @@ CHECKS = {
               "order), recomputed encoded sizes, and the refusal rule."),
         note="State key is the size structure of held bundles (payload ids are a relabelling); sizes outside the alphabet are not covered.",
         design_ref="2 C16",
+    ),
+    "C18": dict(
+        category="model_checking",
+        technique="explicit-state BFS over real Ics20Withdrawal transactions and the real Ics20Transfer packet handlers with a reference escrow ledger",
+        text=("BFS over every sequence of <= 3 (thorough 5) events from 14 (thorough 21) outgoing / incoming ICS-20 events on forks of "
+              "a real block state with open channels, connection and client: withdrawals (native asset in trace and ibc/ form, two "
+              "channels, from a bridge with an event id, foreign asset) through the real transaction path; incoming packets (returning "
+              "and foreign assets, plain and bridge recipients, good/bad memos, amounts above the escrow), error acks and timeouts of "
+              "the path's own packets and of an invented one through the real Ics20Transfer check+execute handlers inside a state "
+              "transaction. Oracle: reference escrow ledger (sent - returned - refunded, never negative), ICS-20 source-zone rule on "
+              "the full denomination trace, every incoming packet / refund has either its full effect (balances, escrow, deposit and "
+              "deposit event) or none."),
+        note="Enters below penumbra's relay-layer proof verification; one universe (BR1 funded, two channels).",
+        design_ref="2 C18",
     ),
 }
 
